@@ -1570,19 +1570,23 @@ fn main() {
 
     // the four settings advance level by level in turn under one wall-clock deadline
     let deadline = Instant::now() + total_budget;
+    let guaranteed_depth: usize = if depth_override.is_some() { usize::MAX } else if thorough { 6 } else { 4 };
     let mut explorers: Vec<Explorer> = (0..SETTINGS.len()).map(|si| Explorer::new(&ctx, si, depths[si])).collect();
     for level in 0..*depths.iter().max().unwrap() {
         for si in 0..explorers.len() {
             if explorers[si].finished() || explorers[si].res.depth_completed != level {
                 continue;
             }
-            if Instant::now() > deadline {
+            // the wall-clock cap never cuts the guaranteed depth (so that what the quick tier
+            // covers does not depend on machine load); deeper levels run while time remains
+            let dl = if level < guaranteed_depth { Instant::now() + Duration::from_secs(86_400) } else { deadline };
+            if Instant::now() > dl {
                 explorers[si].res.capped = true;
                 continue;
             }
             let others: usize = explorers.iter().enumerate().filter(|(j, _)| *j != si).map(|(_, e)| e.cached).sum();
             let budget = cache_proofs.saturating_sub(others);
-            explorers[si].advance(&ctx, deadline, threads, budget, det_every);
+            explorers[si].advance(&ctx, dl, threads, budget, det_every);
         }
     }
     let results: Vec<SettingResult> = explorers.into_iter().map(|e| e.res).collect();
